@@ -37,6 +37,11 @@ package annotateparser
 
 //@ func parserTypeState
 //@   sweep C01
+//@   props C16
+//@   ensures[C16,one-const-flag-and-one-enum-flag-per-type] typeis(result, "*annotateast.AnnotateTypeState") && len(as(result, "*annotateast.AnnotateTypeState").ListType) >= 1
+//@        && len(as(result, "*annotateast.AnnotateTypeState").ListConst) == len(as(result, "*annotateast.AnnotateTypeState").ListType)
+//@        && len(as(result, "*annotateast.AnnotateTypeState").ListEnum) == len(as(result, "*annotateast.AnnotateTypeState").ListType)
+//@   loop 0 invariant [C16] len(typeState.ListConst) == len(typeState.ListType) && len(typeState.ListEnum) == len(typeState.ListType)
 //@ end
 
 //@ func parserAliasState
@@ -45,6 +50,10 @@ package annotateparser
 
 //@ func parserClassState
 //@   sweep C01
+//@   props C16
+//@   ensures[C16,one-location-per-parent] typeis(result, "*annotateast.AnnotateClassState")
+//@        && len(as(result, "*annotateast.AnnotateClassState").ParentNameList) == len(as(result, "*annotateast.AnnotateClassState").ParentLocList)
+//@   loop 0 invariant [C16] len(classState.ParentNameList) == len(classState.ParentLocList)
 //@ end
 
 //@ func parserOverloadState
@@ -61,10 +70,21 @@ package annotateparser
 
 //@ func parserReturnState
 //@   sweep C01
+//@   props C16
+//@   ensures[C16,one-optional-flag-per-return-type] typeis(result, "*annotateast.AnnotateReturnState") && len(as(result, "*annotateast.AnnotateReturnState").ReturnTypeList) >= 1
+//@        && len(as(result, "*annotateast.AnnotateReturnState").ReturnOptionList) == len(as(result, "*annotateast.AnnotateReturnState").ReturnTypeList)
+//@   loop 0 invariant [C16] len(returnState.ReturnOptionList) == len(returnState.ReturnTypeList)
 //@ end
 
 //@ func parserGenericState
 //@   sweep C01
+//@   props C16
+//@   ensures[C16,one-parent-slot-per-generic-name] typeis(result, "*annotateast.AnnotateGenericState") && len(as(result, "*annotateast.AnnotateGenericState").NameList) >= 1
+//@        && len(as(result, "*annotateast.AnnotateGenericState").NameLocList) == len(as(result, "*annotateast.AnnotateGenericState").NameList)
+//@        && len(as(result, "*annotateast.AnnotateGenericState").ParentNameList) == len(as(result, "*annotateast.AnnotateGenericState").NameList)
+//@        && len(as(result, "*annotateast.AnnotateGenericState").ParentLocList) == len(as(result, "*annotateast.AnnotateGenericState").NameList)
+//@   loop 0 invariant [C16] len(genericState.NameLocList) == len(genericState.NameList) && len(genericState.ParentNameList) == len(genericState.NameList)
+//@        && len(genericState.ParentLocList) == len(genericState.NameList)
 //@ end
 
 //@ func parserVarargState
